@@ -329,6 +329,23 @@ def umist_file(v: List[int]) -> bool:
     return _file_family("umist", v)
 
 
+def umist_multifit(v: List[int]) -> bool:
+    """
+    pre: len(v) == 3 and all(0 <= x < 8 for x in v)
+    post: _ == True
+    """
+    # an entry tabulated with several fits (NE = 2, 3): one reaction per line, and its coefficients *and* window are
+    # those of the first block (the later blocks, whose references may contain the separator, are not mixed in)
+    a, b, c = prelude.concrete(v)
+    with prelude.NoTracing():
+        r = _base("umist")
+        r["a"], r["b"], r["c"] = LIT_A[a % 8], LIT_B[b % 8], LIT_B[(a + b) % 8]
+        r["tmin"], r["tmax"] = WIN[c % 8]
+        r["fits"] = [(LIT_A[(a + 1) % 8], LIT_B[(b + 1) % 8], LIT_B[(b + 2) % 8], r["tmax"], "3000")] + ([(LIT_A[(a + 2) % 8], "1.5", "-2.0", "3000", "41000")] if (a + c) % 2 else [])
+        reac, line = _decode("umist", r)
+        return reac is not None and _check("umist", r, CODES["umist"][2][1], reac)
+
+
 def leeds_reactant(v: List[int]) -> bool:
     """
     pre: len(v) == 3 and all(0 <= x < 8 for x in v)
@@ -471,6 +488,38 @@ def krome_numeric(v: List[int]) -> bool:
     post: _ == True
     """
     return _numeric_family("krome", v)
+
+
+KR_LO = ["", ">", ".GE.", ".GT."]
+KR_HI = ["", "<", ".LE.", ".LT."]
+KR_NUM = [("10", 10.0), ("1d2", 100.0), (".5d1", 5.0), ("2.73", 2.73), ("3.e4", 30000.0), (".25e2", 25.0), ("5.5e3", 5500.0), (".75", 0.75)]
+KR_NONE = ["NONE", "N/A", ""]
+
+
+def krome_window(v: List[int]) -> bool:
+    """
+    pre: len(v) == 3 and all(0 <= x < 8 for x in v)
+    post: _ == True
+    """
+    # KROME window spellings: optional comparison operator, numbers with d-exponents and numbers that begin with the
+    # decimal point, NONE placeholders
+    a, b, c = prelude.concrete(v)
+    with prelude.NoTracing():
+        r = _base("krome")
+        lo_txt, lo = KR_NUM[a % 8]
+        hi_txt, hi = KR_NUM[b % 8]
+        r["tmin"] = KR_LO[c % 4] + lo_txt
+        r["tmax"] = KR_HI[(c // 4) % 2 * 2 + (a + b) % 2] + hi_txt
+        if (a + c) % 7 == 0:
+            r["tmin"], lo = KR_NONE[c % 3], -1.0
+        if (b + c) % 7 == 0:
+            r["tmax"], hi = KR_NONE[(c + 1) % 3], -1.0
+        reac, line = _decode("krome", r)
+        if reac is None:
+            return False
+        want_lo = lo if lo > 0 else reac.temp_min if reac.temp_min <= 0 else lo
+        want_hi = hi if hi > 0 else reac.temp_max if reac.temp_max <= 0 else hi
+        return reac.temp_min == want_lo and reac.temp_max == want_hi and _names("krome", reac.reactants) == ["H", "H2"] and reac.idxfromfile == 12
 
 
 def krome_file(v: List[int]) -> bool:
